@@ -52,23 +52,27 @@ func leaves(v ssa.Value, seen map[ssa.Value]bool, out *[]ssa.Value) {
 
 // fromQueue: v is (a field of) the request received from the request queue in the connection loop.
 func (c *Ctx) fromQueue(v ssa.Value, fields ...*types.Var) bool {
-	return c.allOrigins(v, func(a apath) bool {
-		ex, ok := a.Root.(*ssa.Extract)
-		if !ok {
-			return false
-		}
-		sel, ok := ex.Tuple.(*ssa.Select)
+	return c.allOrigins(v, func(a apath) bool { return c.isQueueRecv(a.Root) && pathIs(a, fields...) })
+}
+
+// isQueueRecv: root is the value received from the request queue in a select.
+func (c *Ctx) isQueueRecv(root ssa.Value) bool {
+	switch x := root.(type) {
+	case *ssa.Extract:
+		sel, ok := x.Tuple.(*ssa.Select)
 		if !ok {
 			return false
 		}
 		arms, _ := selectArms(sel)
 		for _, arm := range arms {
-			if arm.Recv == ssa.Value(ex) && c.fieldVal(arm.State.Chan, c.R.FRequests) {
-				return pathIs(a, fields...)
+			if arm.Recv == ssa.Value(x) && c.fieldVal(arm.State.Chan, c.R.FRequests) {
+				return true
 			}
 		}
-		return false
-	})
+	case *ssa.UnOp:
+		return x.Op == token.ARROW && c.fieldVal(x.X, c.R.FRequests)
+	}
+	return false
 }
 
 func (c *Ctx) registerBeforeWrite(rule string) {
